@@ -403,7 +403,8 @@ def check_C18(tier: str, seed: int) -> int:
                    "with the model on the whole state and checked by the Lean FIFO monitor on the implementation's own pre/post states (a vehicle that started charging while an "
                    "earlier queuer for the same plug is left waiting); distinct_nontrivial = distinct transitions into/out of ChargeQueueing; plus the general history layer")
     v.coverage = cov
-    v.assumptions = ["enabledness: a queued vehicle whose own update fails (environment error) may be overtaken; the theorem states this explicitly"]
+    v.assumptions = ["fifo_enabled: counters match the vehicles (C02), the earlier vehicle stands at the station with access and a usable plug type (C07, C10, ChargeQueueing.enter); "
+                     "environment without geofence refusals whose physics predicates read mechatronics / energy / plug energy type only (EnvCongr, proved for the driver's environment)"]
     return v.finish()
 
 
